@@ -163,6 +163,21 @@ def orElse' (a : Option String) (b : Unit → Option String) : Option String :=
 
 /-! ### group-level ops, generic in the coefficient field -/
 
+/-- an RNG that replays a list of words (after the last one: the number of the call, 1-based) and counts the `next_u64` calls -/
+abbrev ReplayRng := List Nat × Nat
+
+def ReplayRng.next (st : ReplayRng) : ReplayRng × Nat :=
+  match st.1 with
+  | [] => (([], st.2 + 1), st.2 + 1)
+  | x :: xs => ((xs, st.2 + 1), x)
+
+/-- `Fq::random` (derive output; `Mont.randomSpec`, proved equal to the translated source in PP.Props.GenDerive) on the
+    replaying RNG: it terminates because the RNG returns small words after its last word -/
+def fqRandomReplay (st : ReplayRng) : ReplayRng × Fq :=
+  match Mont.randomSpec ReplayRng.next 6 61 Mont.fqP.p (st.1.length / 6 + 2) st with
+  | some (st', x) => (st', Fq.ofMont (limbsToNat x))
+  | none => (st, 0)
+
 structure GroupCtx (F : Type) [Add F] [Sub F] [Mul F] [Neg F] [Zero F] [One F] [FieldOps F] [DecidableEq F] [SqrtOps F] where
   io : Codec' F
   cc : Codec F
@@ -175,6 +190,8 @@ structure GroupCtx (F : Type) [Add F] [Sub F] [Mul F] [Neg F] [Zero F] [One F] [
   osswu : F → Option (Jac F)
   mapTo : F → Option (Jac F)
   map2To : F → F → Option (Jac F)
+  /-- `$basefield::random` on the replaying RNG of the `rnd` ops -/
+  baseRandom : ReplayRng → ReplayRng × F
 
 section
 variable {F : Type} [Add F] [Sub F] [Mul F] [Neg F] [Zero F] [One F] [FieldOps F] [DecidableEq F] [SqrtOps F]
@@ -296,6 +313,15 @@ def groupOp (g : GroupCtx F) (op : String) (args : List String) : Option String 
   | "frompx", [x, gr] => do
       let x ← g.io.parse x
       pure (showOpt A.shw (Aff.getPointFromX g.cc.b x (gr == "1")))
+  | "rnd", [ws] => do
+      -- `CurveProjective::random` on the replaying RNG (`next_u32` = low 32 bits of `next_u64`); output: the point and the
+      -- number of `next_u64` calls made
+      let ws ← (ws.splitOn ",").mapM parseHex
+      let nextU32 : ReplayRng → ReplayRng × Nat := fun st => ((ReplayRng.next st).1, (ReplayRng.next st).2 % 2 ^ 32)
+      match Jac.randomSpec g.baseRandom nextU32 g.cc.b
+          (fun a => a.mulBits (bitsMSB (limbsOf g.cofactorLimbs g.cofactor))) (ws.length + 200) (ws, 0) with
+      | none => pure "none"
+      | some (st, pt) => pure (showJac g pt ++ " " ++ toString st.2)
   | "scalecof", [a] => do
       let a ← A.parse a
       pure (showJac g (a.mulBits (bitsMSB (limbsOf g.cofactorLimbs g.cofactor))))
@@ -415,6 +441,7 @@ def g1Ctx : GroupCtx Fq where
   osswu := fun u => some (osswuG1 u)
   mapTo := fun u => some (mapToCurveG1 u)
   map2To := fun u0 u1 => some (map2ToCurveG1 u0 u1)
+  baseRandom := fqRandomReplay
 
 def g2Ctx : GroupCtx Fq2 where
   io := fq2IO
@@ -429,6 +456,10 @@ def g2Ctx : GroupCtx Fq2 where
   osswu := osswuG2
   mapTo := mapToCurveG2
   map2To := map2ToCurveG2
+  baseRandom := fun st =>
+    let r0 := fqRandomReplay st
+    let r1 := fqRandomReplay r0.1
+    (r1.1, ⟨r0.2, r1.2⟩)      -- `Fq2::random`: `c0` first, then `c1` (PP.GenRestLemmas.Fq2_random_eq)
 
 /-! ### hashing -/
 
@@ -645,18 +676,14 @@ def runLine (line : String) : String :=
     | "g1" :: op :: args => groupOp g1Ctx op args
     | "g2" :: op :: args => groupOp g2Ctx op args
     | ["rnd", f, ws] => do
-      -- `Field::random` with an RNG that replays the given words (0 after the last one); output: the raw limbs
+      -- `Field::random` with an RNG that replays the given words (then the call number); output: the raw limbs
       -- of the element as one number, and the number of `next_u64` calls made
       let ws ← (ws.splitOn ",").mapM parseHex
       let (n, bits, p) ← (match f with
         | "fq" => some (6, 61, Mont.fqP.p)
         | "fr" => some (4, 63, Mont.frP.p)
         | _ => none)
-      let next : List Nat × Nat → (List Nat × Nat) × Nat := fun st =>
-        match st.1 with
-        | [] => (([], st.2 + 1), 0)
-        | x :: xs => ((xs, st.2 + 1), x)
-      match Mont.randomSpec next n bits p (ws.length / n + 2) (ws, 0) with
+      match Mont.randomSpec ReplayRng.next n bits p (ws.length / n + 2) (ws, 0) with
       | none => pure "none"
       | some (st, x) => pure (toHex (limbsToNat x) ++ " " ++ toString st.2)
     | "mfq" :: op :: args => Mont.montOp Mont.fqP op (args.mapM parseHex) |>.map (fun o => o.elim "none" toHex)
